@@ -496,7 +496,9 @@ def rn_arg_roles(ctx):
     f(to_degree, from_degree) for def f(from_degree, to_degree)); calls to resolved package functions, canonical form"""
     from .common import arg_roles_rule
     from ..memo import scope_funcs
-    n = arg_roles_rule(ctx, 'Rn.arg-roles', scope_funcs(ctx.repo, 'C10'), 'the selection would be made on exchanged targets')
+    # the selection is made on the targets its callers compute: the design walk and the single-amplifier step belong to the scan
+    callers = [ctx.repo.func(NW, nm) for nm in ('set_egress_amplifier', 'set_one_amplifier', 'compute_gain_power_and_tilt_target')]
+    n = arg_roles_rule(ctx, 'Rn.arg-roles', scope_funcs(ctx.repo, 'C10') + callers, 'the selection would be made on exchanged targets')
     ctx.check('Rn.arg-roles', 'argument / parameter name scan', True, 'C10|arg-roles-scan', '', f'{n} argument(s) named like another parameter judged')
 
 
